@@ -54,9 +54,10 @@ C07(e) ==
 \* pools: the ==/hash/set matrix is exactly the specification's equality
 C07Pool(e) ==
    LET n == Len(e.items)
-       P == [k \in 1..n |-> Parse(e.items[k].ver, e.items[k].s)]
+       P == TLCEval([k \in 1..n |-> TLCEval(Parse(e.items[k].ver, e.items[k].s))])
+       D == TLCEval([k \in 1..n |-> TLCEval(Defined(e.items[k].ver, P[k].given))])
        okk(k) == e.out.objs[k].cls = "ok" /\ P[k].cls = "ok"
-       SpecEq(a, b) == EqObj(e.items[a].ver, P[a].minor, P[a].given, e.items[b].ver, P[b].minor, P[b].given)
+       SpecEq(a, b) == e.items[a].ver = e.items[b].ver /\ P[a].minor = P[b].minor /\ D[a] = D[b]
        Obs(k) == <<e.out.objs[k].scores, e.out.objs[k].sev, e.out.objs[k].clean>>
    IN IF \E a, b \in 1..n : okk(a) /\ okk(b) /\ e.out.eq[a][b] # SpecEq(a, b) THEN "eq-matrix"
       ELSE IF \E a, b \in 1..n : okk(a) /\ okk(b) /\ e.out.ne[a][b] = e.out.eq[a][b] THEN "ne-not-negation-of-eq"
